@@ -174,9 +174,18 @@ Assign(m, x, v) ==
 FnReturn(m, v) ==
   LET t == CurThread(m)
       a == Head(t)
-      m1 == SetThread([m EXCEPT !.out = O!TrimFunctionEnd(m.out, a.fnStart0)], Tail(t)) IN
+      m1 == SetThread([m EXCEPT !.out = O!TrimFunctionEnd(m.out, a.fnStart0)], Tail(t))
+      \* the caller's expression around the call: the returned value is the variable "$ret" in it
+      withRet == IF Tail(t) = <<>> THEN m1
+                 ELSE LET c == Head(Tail(t)) IN SetAct(m1, [c EXCEPT !.temps = Put(c.temps, "$ret", v)])
+      ev == IF a.cont.mode \in {"printexpr", "setexpr", "tempexpr"} THEN Eval(withRet, a.cont.e) ELSE v IN
   CASE a.cont.mode = "print" -> IF v.t = "void" THEN m1 ELSE Emit(m1, O!T(ValChars(v)))
     [] a.cont.mode = "set" -> Assign(m1, a.cont.x, v)
+    [] a.cont.mode = "printexpr" -> IF ev.t = "error" THEN Fail(m1, ev.v) ELSE Emit(m1, O!T(ValChars(ev)))
+    [] a.cont.mode = "setexpr" -> IF ev.t = "error" THEN Fail(m1, ev.v) ELSE Assign(m1, a.cont.x, ev)
+    [] a.cont.mode = "temp" -> LET c == CurAct(m1) IN SetAct(m1, [c EXCEPT !.temps = Put(c.temps, a.cont.x, v)])
+    [] a.cont.mode = "tempexpr" -> LET c == CurAct(m1) IN
+                                   IF ev.t = "error" THEN Fail(m1, ev.v) ELSE SetAct(m1, [c EXCEPT !.temps = Put(c.temps, a.cont.x, ev)])
     [] OTHER -> m1
 
 \* the body under execution is exhausted
@@ -219,14 +228,16 @@ Exec(m, s) ==
     [] s.k = "tag" -> Advance(Emit(m, O!TAG(StrOf(m, s.b, 1).text)))
     [] s.k = "set" -> LET v == Eval(m, s.e) IN
                       IF v.t = "error" THEN Fail(m, v.v) ELSE Advance(Assign(m, s.x, v))
-    [] s.k = "call" -> \* f(args) as a statement (mode drop), printed (print) or assigned (set, x)
+    [] s.k = "call" -> \* f(args) as a statement (mode drop), printed (print), assigned (set / temp, x), or as an operand of
+                      \* the expression e that is printed or assigned (printexpr / setexpr / tempexpr): e refers to the
+                      \* returned value as the variable "$ret"
                       LET fn == Knot(s.f)
                           vals == [i \in 1..Len(s.args) |-> Eval(m, s.args[i])]
                           temps == [n \in {fn.params[i] : i \in 1..Len(fn.params)} |->
                                       vals[CHOOSE i \in 1..Len(fn.params) : fn.params[i] = n]]
                           m1 == Visit(Advance(m), s.f)
                           act == [kind |-> "fn", fr |-> <<Frame(fn.body)>>, temps |-> temps, fnStart |-> Len(m.out) + 1,
-                                  fnStart0 |-> Len(m.out) + 1, cont |-> [mode |-> s.mode, x |-> s.x]] IN
+                                  fnStart0 |-> Len(m.out) + 1, cont |-> [mode |-> s.mode, x |-> s.x, e |-> s.e]] IN
                       IF \E i \in 1..Len(vals) : vals[i].t = "error" THEN Fail(m, "argument")
                       ELSE SetThread(m1, <<act>> \o CurThread(m1))
     [] s.k = "ret" -> IF CurAct(m).kind # "fn" THEN Fail(m, "return outside a function")
